@@ -1,5 +1,7 @@
 package lazy
 
+import "github.com/coregx/coregex/nfa"
+
 // DFACache uses byte-based capacity (like Rust's cache_capacity).
 
 // DFACache holds mutable state for DFA search operations.
@@ -62,6 +64,10 @@ type DFACache struct {
 
 	// clearCount tracks cache clear count for NFA fallback threshold.
 	clearCount int
+
+	// pikevm is this cache's private simulator for NFA fallback (created on
+	// first use). It lives in the cache because caches are per-goroutine.
+	pikevm *nfa.PikeVM
 
 	// Statistics
 	hits   uint64
